@@ -1,4 +1,59 @@
-"""Segment inventory (DESIGN.md §2.3). Each entry: where the text comes from, the signature of the
-KEnv method it becomes, and the (few) textual rewrites that replace awaited environment calls by
-synchronous shims."""
-SEGMENTS = {}
+"""Segment inventory (DESIGN.md §2.3).
+
+Each entry names where the text comes from (file, fn, optional scope/anchors), the signature of the
+KEnv method it becomes, the environment calls that are replaced by synchronous shims
+(`await_calls`: self.NAME(..)[.await] -> self.k_NAME(..)) and the few extra textual rewrites.
+Everything else is /repo's text, verbatim.
+"""
+
+EPI = "\n        self.passed.set(true);\n"
+
+SEGMENTS = {
+    # ---- request validation prologues: text up to (not including) the first awaiting statement
+    "W0": dict(
+        file="src/dev/write.rs", fn="__write_at", start="PROLOGUE",
+        sig="pub(crate) fn seg_w0(&self, buf: KBuf, mut offset: u64) -> Qcow2Result<()>",
+        post=EPI + "        self.out.set([single as u64, len as u64, offset, 0, 0, 0]);\n        Ok(())",
+    ),
+    "R0": dict(
+        file="src/dev/read.rs", fn="__read_at", start="PROLOGUE",
+        sig="pub(crate) fn seg_r0(&self, mut buf: KBuf, mut offset: u64) -> Qcow2Result<usize>",
+        post=EPI + "        self.out.set([single as u64, len as u64, offset, extra as u64, buf.len() as u64, 0]);\n        Ok(0)",
+    ),
+    "D0": dict(
+        file="src/dev/discard.rs", fn="discard", start="PROLOGUE",
+        sig="pub(crate) fn seg_d0(&self, virtual_offset: u64, len: u64) -> Qcow2Result<()>",
+        post=EPI + "        self.out.set([start, stop, guest, cluster_size, 0, 0]);\n        Ok(())",
+    ),
+    # ---- whole request functions with the awaited lookups / per-cluster operations shimmed
+    "WF": dict(
+        file="src/dev/write.rs", fn="__write_at", start="FULL",
+        sig="pub(crate) fn seg_wf(&self, buf: KBuf, mut offset: u64) -> Qcow2Result<()>",
+        await_calls=["populate_single_write_mapping", "populate_write_mappings", "do_write"],
+        rewrites=[
+            (r"let writes = FuturesUnordered::new\(\);", "let mut writes = KVec::new();"),
+            (r"let res: Vec<_> = writes\.collect\(\)\.await;", "let res = writes;"),
+        ],
+    ),
+    "RF": dict(
+        file="src/dev/read.rs", fn="__read_at", start="FULL",
+        sig="pub(crate) fn seg_rf(&self, mut buf: KBuf, mut offset: u64) -> Qcow2Result<usize>",
+        await_calls=["get_l2_entry", "get_l2_entries", "do_read"],
+        rewrites=[
+            (r"Vec::with_capacity\(nr_clusters\)", "KVec::new()", 2),
+            (r"futures::future::join_all\(reads\)\.await", "reads"),
+        ],
+    ),
+    "DF": dict(
+        file="src/dev/discard.rs", fn="discard", start="FULL",
+        sig="pub(crate) fn seg_df(&self, virtual_offset: u64, len: u64) -> Qcow2Result<()>",
+        await_calls=["__discard_one_cluster"],
+    ),
+    "D1": dict(
+        file="src/dev/discard.rs", fn="__discard_one_cluster", start="FULL",
+        sig="pub(crate) fn seg_d1(&self, guest_offset: u64) -> Qcow2Result<()>",
+        await_calls=["get_l1_entry", "get_l2_slice", "free_clusters", "call_fallocate"],
+        rewrites=[(r"\.write\(\)\.await", ".kwrite()")],
+        pre="        self.passed.set(false);",
+    ),
+}
